@@ -47,3 +47,9 @@ func (dv *Router) VerifProcessPrefixData(data ndn.Data, router *table.PrefixTabl
 // VerifPfxSvs returns the prefix-table sync group instance (Router.Start starts it; the harness starts
 // and feeds it itself so that sync updates reach onPfxSyncUpdate through the real SvSync).
 func (dv *Router) VerifPfxSvs() *ndn_sync.SvSync { return dv.pfxSvs }
+
+// VerifReadvertiseOnInterest delivers a readvertise command Interest (/localhost/nlsr/rib/...; as
+// the engine does for the readvertise prefix): the router announces / withdraws the prefix it names.
+func (dv *Router) VerifReadvertiseOnInterest(args ndn.InterestHandlerArgs) {
+	dv.readvertiseOnInterest(args)
+}
